@@ -138,6 +138,16 @@ func c20Pairs(c *Ctx, idx int) {
 	check("{k: x} == {k: y}", want, "C20/container-equality")
 	check("{k: x, j: `1`} == {j: `1`, k: y}", want, "C20/container-equality")
 	check("[x, y] == [y, x]", want, "C20/container-equality")
+	// one container standing at several places of an operand (results share structure)
+	check("[x, x] == [x, y]", want, "C20/container-equality")
+	check("[x, y] == [x, x]", want, "C20/container-equality")
+	check("[y, y, y] == [y, y, x]", want, "C20/container-equality")
+	check("{p: x, q: x} == {p: x, q: y}", want, "C20/container-equality")
+	check("{p: x, q: y} == {q: x, p: x}", want, "C20/container-equality")
+	check("contains([[x, x]], [x, y])", want, "C20/contains")
+	check("[[x, x], [x, x]] == [[x, x], [x, y]]", want, "C20/container-equality")
+	check("let $v = x in [$v, $v] != [$v, y]", !want, "C20/negation")
+	check("length([[x, x]][?@ == [$.x, $.y]]) == `1`", want, "C20/filter-equality")
 	if i == j {
 		check("x == x", true, "C20/reflexivity")
 		check("x != x", false, "C20/reflexivity")
